@@ -1210,6 +1210,19 @@ def c10(ix: Index) -> None:
             touched |= ix.desc(i['ev'])
             for hi in ix.handlers_for(i['ev'], i['bus']):
                 n = sum(1 for q in ix.inv.values() if q['ev'] == i['ev'] and q['bus'] == i['bus'] and q['h'] == hi)
+                if n == 0:
+                    # not run because an ANCESTOR event's handler timed out (or raised TimeoutError itself) first: that handler's
+                    # timeout path cancels the pending results of all child events of its event - this one among them - which is
+                    # the "cancelled rather than left pending" clause at work one level up, not a handler that was skipped
+                    res_h = next((q for q in fin.get(i['ev'], {}).get('results', []) if q['hid'] == f"B{i['bus']}.h{hi}"), None)
+                    anc, cur, seen_a = [], i['ev'], set()
+                    while cur in ix.parent_of and cur not in seen_a:
+                        seen_a.add(cur)
+                        cur = ix.parent_of[cur]
+                        anc.append(cur)
+                    if res_h is not None and res_h['err'] == 'CancelledError' and any(q['err'] == 'TimeoutError' for a in anc for q in fin.get(a, {}).get('results', [])):
+                        ix.C['c10_handlers_cancelled_by_an_ancestors_timeout'] += 1
+                        continue
                 if n != 1:
                     # F5: the timed-out handler's own event was itself being processed inside the drain of an enclosing
                     # handler that was cancelled by a timeout, so its processing was abandoned mid-way
@@ -1264,7 +1277,9 @@ def _c10_abandoned(ix: Index, fired: list) -> list:
         x = p['b']['ev']
         chain = [p['b']['drv']] + (ix.driver_chain(p['b']['drv'])[1:] if isinstance(p['b']['drv'], int) else [])
         fired_events = [ix.inv[c]['ev'] for c in chain if isinstance(c, int) and c in eff]
-        covered = any(x == e or x in ix.desc(e) for e in fired_events)
+        # (strict descendants: the timeout path cancels the pending results of the event's CHILDREN; the event's own results on
+        # another bus - it was being processed there, through a forward, inside its own handler's drain - are not touched by it)
+        covered = any(x in ix.desc(e) for e in fired_events)
         out.append((x, covered, [c for c in chain if isinstance(c, int)]))
     return out
 
